@@ -70,6 +70,16 @@ def cases(rng, tier):
     return out
 
 
+def operand_cases(rng, tier):
+    import opgen
+    return opgen.operand_cases(rng, tier, True)
+
+
+OP_IMPORTS = 'From Gen Require Import enums bits_ops shift opsyn core conc.'
+OP_SPEC_IMPORTS = 'From ArmV Require Import Spec.Pseudocode.'
+
+
 def units():
     thms = ['C06_top_level', 'C06_multiply', 'C06_load_store_word', 'C06_branch_block', 'C06_dp_immediate']
-    return [Unit('arm_groups', thms, ['Proofs/Cube.v', 'Proofs/DecodeReify.v', 'Proofs/DecArm1.v'], [], cases, IMPORTS, SPEC_IMPORTS)]
+    return [Unit('arm_groups', thms, ['Proofs/Cube.v', 'Proofs/DecodeReify.v', 'Proofs/DecArm1.v'], [], cases, IMPORTS, SPEC_IMPORTS),
+            Unit('operands', [], [], [], operand_cases, OP_IMPORTS, OP_SPEC_IMPORTS)]
